@@ -98,13 +98,31 @@ def children(schedule, obs, menu, fault_kinds):
                 # no longer exists.  Such pairs are covered with the injection at the next boundary instead.
                 continue
             kinds = [k for k in fault_kinds if k == "raise" or op in STATUS_OPS]
-            if op in ("stop", "subscribe", "clear_sub", "pause", "resume"):
+            if op in ("stop", "subscribe", "pause", "resume"):
                 continue  # declared infallible in the fakes
+            if op == "clear_sub" and li not in _unmonitor_ops(obs):
+                continue  # the device may refuse only the removal a plan's 'unmonitor' asks for, not the engine's own clean-up
             for k in kinds:
                 f2 = dict(faults)
                 f2[li] = k
                 out.append({"injections": list(inj), "faults": f2, "decisions": []})
     return out
+
+
+def _unmonitor_ops(obs):
+    """Ledger indices of the device operations performed while an 'unmonitor' message of the plan was being processed."""
+    cached = obs.extra.get("_unmonitor_ops")
+    if cached is None:
+        cached, cur = set(), None
+        for t in obs.timeline:
+            if t[0] == "msg":
+                cur = t[2]
+            elif t[0] == "plan_end":
+                cur = None
+            elif t[0] == "dev" and cur == "unmonitor":
+                cached.add(t[4])
+        obs.extra["_unmonitor_ops"] = cached
+    return cached
 
 
 def decision_variants(schedule, obs):
